@@ -21,7 +21,7 @@ from vermouth import selectors
 PROPERTY = 'C17'
 LEVEL = 'exploration'
 RULE = ('assign: systems of 1-6 molecules (1-8 residues of 1-3 atoms, sparse increasing node keys, atoms of neighbouring residues '
-        'optionally interleaved), each molecule selected or not (by protein residue names or by a flag), sequences of length '
+        'optionally interleaved; residue numbers ascending, descending, wrapping at 9999 or with insertion codes), each molecule selected or not (by protein residue names or by a flag), sequences of length '
         'total / one molecule / 1 / off by one / empty / arbitrary; non-trivial = an unselected molecule precedes a selected one and '
         'the selected molecules differ in residue count or the sequence is per-residue for the whole selection. '
         'dssp-enum: all strings over {H,C} up to length 12 (quick) / 16 (thorough), enumerated completely; non-trivial = at least '
@@ -198,8 +198,21 @@ def build_system(case):
                 flat.extend(o)
         per_res = [[] for _ in range(nres)]
         for ridx, a in flat:
-            attrs = {'atomname': 'A%d' % a, 'resname': names[(ridx + mi) % len(names)], 'resid': md['resid0'] + ridx * md['resid_step'],
+            # residue numbering: ascending, descending, wrapping (9999 -> 0) or with insertion codes (same number, codes in
+            # an order that is not alphabetical): the k-th residue is the k-th in the molecule, never the k-th when sorted
+            scheme = md.get('numbering', 'ascending')
+            if scheme == 'descending':
+                resid, icode = md['resid0'] + (nres - ridx) * md['resid_step'], None
+            elif scheme == 'wrap':
+                resid, icode = (9998 + ridx) % 10000, None
+            elif scheme == 'icode':
+                resid, icode = md['resid0'] + ridx // 3, ['', 'B', 'A'][ridx % 3]
+            else:
+                resid, icode = md['resid0'] + ridx * md['resid_step'], None
+            attrs = {'atomname': 'A%d' % a, 'resname': names[(ridx + mi) % len(names)], 'resid': resid,
                      'chain': md['chain']}
+            if icode:
+                attrs['insertion_code'] = icode
             if not md['selected'] and md['preset']:
                 attrs['secstruct'] = 'preset-%d-%d' % (mi, ridx)
             mol.add_node(key, **attrs)
@@ -298,6 +311,9 @@ def _run_assign(case):
         classes.append('unequal-lengths')
     if any(md['interleave'] for md in case['mols']):
         classes.append('interleaved-atoms')
+    if any(md.get('numbering', 'ascending') != 'ascending' and case['mols'][i]['selected'] and len(md['residues']) > 1
+           for i, md in enumerate(case['mols'])):
+        classes.append('non-ascending-residue-ids')
     nontrivial = unselected_before and (len(set(lens)) > 1 or (mode == 'total' and len(lens) >= 1 and total >= 2))
     return Outcome(classes, nontrivial)
 
@@ -313,6 +329,7 @@ def _strategy_assign(tier):
         'resid0': st.sampled_from([1, 1, 5, 100]),
         'resid_step': st.sampled_from([1, 1, 2]),
         'chain': st.sampled_from(['A', 'B', '']),
+        'numbering': st.sampled_from(['ascending', 'ascending', 'descending', 'wrap', 'icode']),
         'preset': st.booleans(),
     })
     same_len = st.integers(1, 6).flatmap(lambda n: st.lists(
@@ -330,7 +347,7 @@ def _strategy_assign(tier):
 
 PARTS = [
     Part('assign', _run_assign, strategy=_strategy_assign, examples={'quick': 6000, 'thorough': 150000},
-         floors={'unselected-first': 0.08, 'length-error': 0.1, 'unequal-lengths': 0.04, 'per-mol': 0.08, 'one': 0.04}),
+         floors={'non-ascending-residue-ids': 0.1, 'unselected-first': 0.08, 'length-error': 0.1, 'unequal-lengths': 0.04, 'per-mol': 0.08, 'one': 0.04}),
     Part('dssp-enum', _run_enum, enumerate=_enum_dssp),
     Part('dssp-random', _run_dssp_random, strategy=_strategy_dssp_random, examples={'quick': 4000, 'thorough': 100000},
          floors={'runs-separated-by-one': 0.05, 'has-long-helix': 0.1, 'via-molecule': 0.2}),
